@@ -12,6 +12,7 @@ import_repo()
 from gemclus import data as D  # noqa: E402
 
 QUICK_SCALE = 4  # quick budgets below are multiplied by this (kept at about half a minute on 8 processes)
+THOROUGH_SCALE = 12  # thorough budgets below are multiplied by this (about ten minutes on 16 processes)
 
 RULE = ("generated parameter sets (n 2e4..1.2e5, 1-4 dimensions, 2-4 components, means, PSD covariances from random "
         "factors, dyadic proportions that sum to 1 exactly, df, alpha/mu/p) and seeds; per label the whitened samples are "
